@@ -358,7 +358,7 @@ class Interp:
             if not live:
                 break
             if len(live) > 1:
-                live = merge_states(live)
+                live = merge_states(live, self)
         return [(q, None) for q in live] + done
 
     def exec_stmt(self, s, st, ctx):
@@ -1268,13 +1268,37 @@ class Interp:
         return calls.call(self, fv, args, kwargs, st, ctx)
 
 
-def merge_states(states):
-    """Join states that differ only in their path condition (same locals, heap, ghost): the
-    merged path condition is the common prefix plus the disjunction of the remainders."""
-    from .calls import _state_sig
+def _termable(v):
+    """Values that may be phi-merged into an If-term.  Strings, references, classes and tuple
+    displays are kept apart (they are used as dictionary keys / attribute names / identities,
+    where a concrete value keeps later operations precise)."""
+    if isinstance(v, (Sym, BoolV)):
+        return True
+    return isinstance(v, Conc) and (v.py is None or isinstance(v.py, (bool, int, float)))
+
+
+def _shape_sig(q):
+    from .calls import _sig
+    hs = []
+    for oid in sorted(q.heap):
+        h = q.heap[oid]
+        hs.append((oid, h.kind, h.cls, tuple(sorted(map(str, h.fields))),
+                   None if h.seq is None else h.seq.get_id(),
+                   None if h.keys is None else h.keys.get_id(),
+                   None if h.vals is None else h.vals.get_id(),
+                   None if h.ckeys is None else tuple(h.ckeys)))
+    return (tuple(hs), tuple(sorted(map(str, q.env))), _sig(q.ghost), tuple(q.notes), q.depth)
+
+
+def merge_states(states, interp=None):
+    """Join states at a statement boundary.  States with the same *shape* (same locals, same heap
+    objects and fields, same containers and ghost) are merged into one whose path condition is the
+    common prefix plus the disjunction of the remainders; locals / fields that hold different
+    values get the phi-value  If(cond_1, v_1, If(cond_2, v_2, ...))."""
+    from .calls import _sig
     groups, order = {}, []
     for q in states:
-        k = _state_sig(q)
+        k = _shape_sig(q)
         if k not in groups:
             groups[k] = []
             order.append(k)
@@ -1289,12 +1313,74 @@ def merge_states(states):
         base = 0
         while base < n and all(q.pc[base] is grp[0].pc[base] or q.pc[base].eq(grp[0].pc[base]) for q in grp[1:]):
             base += 1
-        q0 = grp[0]
         suffixes = [q.pc[base:] for q in grp]
+        conds = [z3.And(sf) if len(sf) > 1 else (sf[0] if sf else z3.BoolVal(True)) for sf in suffixes]
+        # positions with differing values
+        diffs = []
+        ok = True
+        q0 = grp[0]
+        for name in q0.env:
+            vals = [q.env[name] for q in grp]
+            if any(_sig(v) != _sig(vals[0]) for v in vals[1:]):
+                if not all(_termable(v) for v in vals):
+                    ok = False
+                    break
+                diffs.append((("env", name), vals))
+        if ok:
+            for oid, h in q0.heap.items():
+                for f in h.fields:
+                    vals = [q.heap[oid].fields[f] for q in grp]
+                    if any(_sig(v) != _sig(vals[0]) for v in vals[1:]):
+                        if f == "$items" or not all(_termable(v) for v in vals):
+                            ok = False
+                            break
+                        diffs.append((("heap", oid, f), vals))
+                if not ok:
+                    break
+        if not ok or (diffs and interp is None) or len(diffs) > 12:
+            # fall back: merge only states that are identical up to the path condition
+            sub, suborder = {}, []
+            from .calls import _state_sig
+            for q in grp:
+                kk = _state_sig(q)
+                if kk not in sub:
+                    sub[kk] = []
+                    suborder.append(kk)
+                sub[kk].append(q)
+            for kk in suborder:
+                g2 = sub[kk]
+                if len(g2) == 1:
+                    out.append(g2[0])
+                    continue
+                qq = g2[0]
+                sfx = [q.pc[base:] for q in g2]
+                if any(len(sf) == 0 for sf in sfx):
+                    qq.pc = qq.pc[:base]
+                else:
+                    qq.pc = qq.pc[:base] + [z3.Or([z3.And(sf) if len(sf) > 1 else sf[0] for sf in sfx])]
+                out.append(qq)
+            continue
+        for (pos, vals) in diffs:
+            if all(isinstance(v, (BoolV, Conc)) and (isinstance(v, BoolV) or isinstance(v.py, bool)) for v in vals):
+                bs = [v.b if isinstance(v, BoolV) else z3.BoolVal(v.py) for v in vals]
+                acc = bs[-1]
+                for c, b in zip(reversed(conds[:-1]), reversed(bs[:-1])):
+                    acc = z3.If(c, b, acc)
+                merged = BoolV(acc)
+            else:
+                ts = [interp.term(v) for v in vals]
+                acc = ts[-1]
+                for c, t in zip(reversed(conds[:-1]), reversed(ts[:-1])):
+                    acc = z3.If(c, t, acc)
+                merged = Sym(acc)
+            if pos[0] == "env":
+                q0.env[pos[1]] = merged
+            else:
+                q0.heap[pos[1]].fields[pos[2]] = merged
         if any(len(sf) == 0 for sf in suffixes):
             q0.pc = q0.pc[:base]
         else:
-            q0.pc = q0.pc[:base] + [z3.Or([z3.And(sf) if len(sf) > 1 else sf[0] for sf in suffixes])]
+            q0.pc = q0.pc[:base] + [z3.Or(conds)]
         out.append(q0)
     return out
 
